@@ -202,7 +202,8 @@ def dCond (T : BoolTable) (c : Cond) (o : Obj) : List String :=
 
 /-- the classes the input `(V, c, pol, o)` falls in -/
 def d02 (tbl : ClassTable) (T : BoolTable) (v : Ty) (c : Cond) (pol : Bool) (o : Obj) : List String :=
-  dCond T c o ++ ((flatten1 v).filter fun m => mem tbl o m).flatMap fun m => dK tbl T (c.kAt T pol) (tested c) o m)
+  dCond T c o ++
+    (((flatten1 v).filter fun m => mem tbl o m).flatMap fun m => dK tbl T (c.kAt T pol) (tested c) o m)
 
 /-- classification of a wrong "always true" verdict on the whole value -/
 def dVerdict (tbl : ClassTable) (T : BoolTable) (v : Ty) (o : Obj) : List String :=
